@@ -561,8 +561,11 @@ def settings(ctx, pid="C01"):
     return st
 
 
-def model_check(ctx, pid, mode, schedule, invariants, fault_kinds, want_export=False, compile_c=False):
-    """Common driver: returns (batch, violations, hists, stats, settings)."""
+def model_check(ctx, pid, mode, schedule, invariants, fault_kinds, want_export=False, compile_c=False, sink=None, sink_chunk=60):
+    """Common driver: returns (batch, violations, hists, stats, settings).  With sink (a function of (batch, histories))
+    the programs are explored sink_chunk at a time and each chunk's exported histories are handed to sink and dropped
+    (a thorough run exports tens of millions of calls: kept in memory they took 30 GB); the returned list is then only a
+    sample of about 2000 histories."""
     st = settings(ctx, pid)
     tools = build_tools(ctx)
     srcs = load_sources(ctx, st["n_mut"], include_known=True, gen=st["gen"], pid=pid)
@@ -574,7 +577,20 @@ def model_check(ctx, pid, mode, schedule, invariants, fault_kinds, want_export=F
         ctx.log("compiled the batch driver (%d programs kept)" % len(b.progs))
     inv = list(invariants) + (["ExportInv"] if want_export else [])
     cfg = cfg_text(st["maxcalls"], mode, schedule, st["fuel"], inv, view=not want_export)
-    viols, hists, stats = run_tlc_groups(ctx, b.progs, cfg, "%s %s/%s" % (pid, mode, schedule), group=st["group"], workers=st["workers"], par=st["par"])
+    if sink is None:
+        viols, hists, stats = run_tlc_groups(ctx, b.progs, cfg, "%s %s/%s" % (pid, mode, schedule), group=st["group"], workers=st["workers"], par=st["par"])
+    else:
+        viols, hists, stats = [], [], {"states": 0, "generated": 0, "runs": 0, "histories": 0}
+        for i in range(0, len(b.progs), sink_chunk):
+            v, h, s1 = run_tlc_groups(ctx, b.progs[i:i + sink_chunk], cfg, "%s %s/%s [%d..]" % (pid, mode, schedule, i), group=st["group"], workers=st["workers"], par=st["par"])
+            viols += v
+            for k in ("states", "generated", "runs"):
+                stats[k] += s1[k]
+            stats["histories"] += len(h)
+            sink(b, h)
+            keep = [x for x in h if x["hist"]]
+            hists += keep[:: max(1, len(keep) // 200)][:200]
+            del h
     viols = [v for v in viols if v[1] in fault_kinds]
     return b, viols, hists, stats, st
 
